@@ -147,7 +147,7 @@ Qed.
    semantics (lib/Unsl.v: every IUnslicer callback returns ok | Violation | BananaError | any other exception), and the
    property's sentences proved for EVERY such semantics.  Instances compared with the real code on every run: the policy
    unslicers (lib/PolUnsl.v) and the STANDARD unslicers of slicers/*.py under real constraint objects (lib/StdUnsl.v). *)
-Require Import Verif.gen.RecvGen Verif.lib.Unsl Verif.lib.UnslProofs Verif.lib.UnslFollow Verif.lib.StdUnsl Verif.lib.StdUnslProofs Verif.lib.RecvTie.
+Require Import Verif.gen.RecvGen Verif.lib.Unsl Verif.lib.UnslProofs Verif.lib.UnslFollow Verif.lib.UnslAbandon Verif.lib.StdUnsl Verif.lib.StdUnslProofs Verif.lib.RecvTie.
 
 Section AnyUnslicers.
 Variable fr : Type.
@@ -178,9 +178,49 @@ Proof. intros H1 H2 cs s. exact (unsl_no_escape fr u_check u_opener_check u_do_o
 Theorem C07_handler_catches_everything : forall k, dr_caught k = true.
 Proof. exact dr_catches_everything. Qed.
 
-(* "a protocol violation makes the receiver send an error, close the connection ...": every exception kind *)
-Theorem C07_exception_sends_error_and_closes : forall k, In UErrorSent (ufatal k) /\ In ULose (ufatal k).
+(* "a protocol violation makes the receiver send an error, close the connection ...": every exception kind.
+   (Codes 97 / 98 are not exception kinds: they are the reserved answers by which an unslicer semantics ABSTAINS -- lib/Unsl.v --
+   and they end the model's run with the marker UUnmodelled alone: no ERROR, no loseConnection is claimed.) *)
+Theorem C07_exception_sends_error_and_closes : forall k, abstain_code k = false -> In UErrorSent (ufatal k) /\ In ULose (ufatal k).
 Proof. exact unsl_fatal_sends_error_and_closes. Qed.
+Theorem C07_abstention_is_not_abandonment : forall k, abstain_code k = true -> ufatal k = [UUnmodelled].
+Proof. exact ufatal_abstains. Qed.
+
+(* ABANDONED MEANS ABANDONED (review-2 repair): a result is read three ways -- ok, abandoned, or the model abstains (uview) -- and for
+   EVERY unslicer semantics a fatal result in which the model did not abstain has sent the ERROR token and closed the connection *)
+Theorem C07_abandoned_is_real : forall c ts,
+  match uview fr (APPLY c ts) with U3Abandoned _ es => In UErrorSent es /\ In ULose es | _ => True end.
+Proof. exact (unsl_abandoned_is_real fr u_check u_opener_check u_do_open u_start u_child u_close u_finish u_report). Qed.
+
+(* THE CLOSE COUNT IS CHECKED (review-2 repair; kills the mutant of opt_is that ignores the count): a CLOSE whose number is not the
+   number of the OPEN that created the innermost unslicer (the root has none) is "lost sync": the connection is abandoned and
+   nothing is closed ... *)
+Theorem C07_close_count_checked : forall c n top rest, u_stack fr c = top :: rest -> uf_open fr top <> Some n ->
+  uhandle_close fr u_child u_close u_finish u_report c n = UFatal fr (ufatal 0).
+Proof. exact (unsl_close_count_checked fr u_child u_close u_finish u_report). Qed.
+(* ... as a statement about the CLOSE token (nothing being discarded, no index phase pending) ... *)
+Theorem C07_close_token_count_checked : forall c n top rest,
+  u_discard fr c = 0 -> u_inOpen fr c = false -> u_stack fr c = top :: rest -> uf_open fr top <> Some n ->
+  utok_apply fr u_check u_opener_check u_do_open u_start u_child u_close u_finish u_report c tok_CLOSE n [] = UFatal fr (ufatal 0).
+Proof.
+  intros c n top rest. apply (unsl_close_token_count_checked fr u_check u_opener_check u_do_open u_start u_child u_close u_finish u_report).
+  rewrite tie_exempt. reflexivity.
+Qed.
+(* ... and the matching CLOSE does reach the unslicer's receiveClose *)
+Theorem C07_close_matching : forall c n top rest, u_stack fr c = top :: rest -> uf_open fr top = Some n ->
+  uhandle_close fr u_child u_close u_finish u_report c n =
+  match u_close (uf_st fr top) with
+  | OViol => uhandle_violation fr u_finish u_report c false true
+  | OBanana => UFatal fr (ufatal 0)
+  | OExc k => UFatal fr (ufatal k)
+  | OOk obj => match u_finish (uf_st fr top) with
+               | OViol => uhandle_violation fr u_finish u_report c false true
+               | OBanana => UFatal fr (ufatal 0)
+               | OExc k => UFatal fr (ufatal k)
+               | OOk _ => uhandle_token fr u_child u_finish u_report (uw_stack fr c (u_discard fr c) rest) obj
+               end
+  end.
+Proof. exact (unsl_close_matching fr u_child u_close u_finish u_report). Qed.
 
 (* (3') once the root has absorbed a violation inside an object (only the root is left on the stack), nothing more happens until the
    end of that object, where the receiver is at top level again with the stack untouched *)
@@ -235,12 +275,27 @@ Proof. exact (uhv_loop_bottom fr u_finish u_report). Qed.
 End AnyUnslicers.
 
 
-(* ... for the STANDARD unslicers (RootUnslicer, list, tuple, dict, set, immutable-set, unicode, boolean, none) under any
-   constraint tree the hypotheses hold, so the three sentences are theorems about them *)
-Theorem C07_standard_unslicers_resync : forall mi lg c ts c' es, uat_top sfr c -> swfc c -> udelta_sum ts = 0 ->
-  sapply_all mi lg c ts = UOk sfr c' es ->
-  uat_top sfr c' /\ swfc c' /\ u_vocab sfr c' = u_vocab sfr c /\ u_objctr sfr c' = u_objctr sfr c + ucount_opens ts.
-Proof. exact std_resync. Qed.
+(* ... for the STANDARD unslicers (RootUnslicer, list, tuple, dict, set, immutable-set, unicode, boolean, none, and the token check of
+   the reference unslicer) under any constraint tree the hypotheses hold, so the three sentences are theorems about them.
+   REVIEW-2 REPAIR: the standard-unslicer model ABSTAINS where it does not model the real unslicers (decimal / copyable / set-vocab /
+   add-vocab unslicers, what a reference resolves to, non-ASCII text, float / bool / frozenset set members and dict keys).  Until
+   this repair an abstention was an ordinary UFatal, so these theorems "held" on a legitimate top-level set-vocab sequence through
+   their fatal branch although the real receiver goes on (no root event, then VOCAB tokens decode with the new table: the
+   vocabulary is NOT unchanged there).  Now the result is read three ways and the theorems say explicitly that they claim nothing
+   about a run in which the model abstains; in the fatal branch they claim the abandonment. *)
+Theorem C07_standard_unslicers_resync : forall mi lg c ts, uat_top sfr c -> swfc c -> udelta_sum ts = 0 ->
+  match uview sfr (sapply_all mi lg c ts) with
+  | U3Abstains _ => True                                          (* not abstains -> ... : nothing is claimed *)
+  | U3Abandoned _ es => In UErrorSent es /\ In ULose es            (* the connection is abandoned *)
+  | U3Ok _ c' es => uat_top sfr c' /\ swfc c' /\ u_vocab sfr c' = u_vocab sfr c /\ u_objctr sfr c' = u_objctr sfr c + ucount_opens ts
+  end.
+Proof. exact std_resync3. Qed.
+
+(* a legitimate top-level set-vocab sequence is such a run: the model abstains, it does not claim an abandonment *)
+Example C07_vocab_sequence_abstains :
+  uview sfr (sapply_all 13 30 (sctx0 None) [(tok_OPEN, 0, []); (tok_STRING, 9, [115; 101; 116; 45; 118; 111; 99; 97; 98]); (tok_CLOSE, 0, [])])
+  = U3Abstains sfr.
+Proof. exact std_vocab_sequence_abstains. Qed.
 
 Theorem C07_standard_unslicers_no_escape : forall mi lg cs s, no_escape (snd (sfeed_all mi lg s cs)).
 Proof. exact std_no_escape. Qed.
@@ -325,13 +380,53 @@ Theorem C07_one_root_event_means : forall es, nroot es = 1 ->
   (ndeliver es = 1 /\ nviolation es = 0) \/ (ndeliver es = 0 /\ nviolation es = 1).
 Proof. exact one_root_event. Qed.
 
-(* the standard unslicers under any constraint tree satisfy all eight hypotheses *)
-Theorem C07_standard_unslicers_exactly_one : forall mi lg c h b body, uat_top sfr c -> std_RI c -> inside 1 body ->
-  match sapply_all mi lg c ((tok_OPEN, h, b) :: body) with
+(* "decoding of the following objects is unaffected", the root's own state (review-2 repair: C07_following_objects_unaffected is
+   determinism given an equal stack; this is the missing half): the root frame changes only by a delivery, so after one top-level
+   sequence that ended in a reported violation the unslicer stack -- the root frame alone -- is exactly what it was before *)
+Theorem C07_violated_object_keeps_root :
+  forall (fr : Type) u_check u_opener_check u_do_open u_start u_child u_close u_finish u_report (is_root : fr -> bool),
+  (forall f, is_root f = true -> u_report f = Some [UViolation]) ->
+  (forall f es, is_root f = false -> u_report f = Some es -> nroot es = 0) ->
+  (forall f v, is_root f = true -> exists f', u_child f v = ([UDeliver v], OOk f') /\ is_root f' = true) ->
+  (forall f v es r, is_root f = false -> u_child f v = (es, r) -> nroot es = 0 /\ (forall f', r = OOk f' -> is_root f' = false)) ->
+  (forall st ot ch, u_do_open st ot = OOk (Some ch) -> is_root ch = false) ->
+  (forall ch n ch', is_root ch = false -> u_start ch n = OOk ch' -> is_root ch' = false) ->
+  (forall f v es f', u_child f v = (es, OOk f') -> absorbs fr u_report f -> absorbs fr u_report f') ->
+  (forall f, (u_close f = OViol \/ (exists v, u_close f = OOk v /\ u_finish f = OViol)) -> u_report f = None) ->
+  forall c h b body, uat_top fr c -> RI fr is_root c -> inside 1 body ->
+  match uapply_all fr u_check u_opener_check u_do_open u_start u_child u_close u_finish u_report c ((tok_OPEN, h, b) :: body) with
   | UFatal _ _ => True
-  | UOk _ c' es => nroot es = 1 /\ uat_top sfr c' /\ std_RI c'
+  | UOk _ c' es => nviolation es = 1 -> u_stack fr c' = u_stack fr c
   end.
-Proof. intros mi lg c h b body. exact (std_exactly_one mi lg c h b body tie_abort_in_index_phase). Qed.
+Proof.
+  intros fr u_check u_opener_check u_do_open u_start u_child u_close u_finish u_report is_root R1 R2 R3 R4 R5 R6 HC HL c h b body T I IN.
+  exact (unsl_violated_object_keeps_root fr u_check u_opener_check u_do_open u_start u_child u_close u_finish u_report is_root R1 R2 R3 R4 R5 R6 HC HL
+           c h b body tie_abort_in_index_phase T I IN).
+Qed.
+
+(* the standard unslicers under any constraint tree satisfy all eight hypotheses.  Three-way reading (see
+   C07_standard_unslicers_resync): where the model abstains nothing is claimed -- in particular hypothesis R3 ("the root delivers
+   every child") is a statement about the MODEL's root, which never receives the vocabulary markers that the real root swallows
+   without a delivery, because the model abstains before a vocab unslicer exists *)
+Theorem C07_standard_unslicers_exactly_one : forall mi lg c h b body, uat_top sfr c -> std_RI c -> inside 1 body ->
+  match uview sfr (sapply_all mi lg c ((tok_OPEN, h, b) :: body)) with
+  | U3Abstains _ => True                                          (* not abstains -> ... : nothing is claimed *)
+  | U3Abandoned _ es => In UErrorSent es /\ In ULose es            (* the connection is abandoned *)
+  | U3Ok _ c' es => nroot es = 1 /\ uat_top sfr c' /\ std_RI c' /\ (nviolation es = 1 -> u_stack sfr c' = u_stack sfr c)
+  end.
+Proof. intros mi lg c h b body. exact (std_exactly_one3 mi lg c h b body tie_abort_in_index_phase). Qed.
+
+(* non-vacuity of the ok branch on a violated object: C07_standard_resync_example's stream is read U3Ok with one violation *)
+Example C07_exactly_one_view_example :
+  exists c' es, uview sfr (sapply_all 13 0 (sctx0 (Some ex_listof))
+                  [(tok_OPEN, 0, []); (tok_STRING, 4, [108; 105; 115; 116]); (tok_STRING, 1, [97]); (tok_STRING, 3, [97; 98; 99]);
+                   (tok_INT, 5, []); (tok_CLOSE, 0, [])]) = U3Ok sfr c' es /\ nviolation es = 1 /\ u_stack sfr c' = u_stack sfr (sctx0 (Some ex_listof)).
+Proof. eexists. eexists. split; [vm_compute; reflexivity|]. split; reflexivity. Qed.
+
+(* OBSERVATION (review-2, recorded as a note, replayed on banana.py): handleOpen does six.ensure_str(indexToken); an index token that
+   is not UTF-8 raises UnicodeDecodeError, which dataReceived's handler turns into the generic ERROR + loseConnection -- a protocol
+   error either way (an opentype that is not text names nothing); a UTF-8 non-ASCII index token is an unknown opentype: one
+   Violation.  The receive logic of lib/Unsl.v abstains on every non-ASCII index token (uhandle_open). *)
 
 (* the two translated clauses are the ones the policy model lib/BananaRecv.v transcribes *)
 Theorem C07_tie_close_in_index_phase : forall io d, hd_close_fatal io d = io && (d =? 0).
@@ -346,5 +441,7 @@ Example C07_exactly_one_example :
 Proof. split; [repeat split|]. split; [apply sctx0_RI|]. cbn. repeat split; reflexivity. Qed.
 
 Definition C07_group_once := (@C07_exactly_one_root_event, @C07_one_root_event_means, @C07_standard_unslicers_exactly_one,
-                              @C07_tie_close_in_index_phase, @C07_tie_abort_in_index_phase).
+                              @C07_tie_close_in_index_phase, @C07_tie_abort_in_index_phase, @C07_violated_object_keeps_root,
+                              @C07_abandoned_is_real, @C07_close_count_checked, @C07_close_token_count_checked, @C07_close_matching,
+                              @C07_abstention_is_not_abandonment).
 Print Assumptions C07_group_once.
